@@ -105,6 +105,13 @@ VK_MAIN()
         vk_layout_fill(VK_FMT, VK_NS, VK_ALN, NL, MAXNL);
         int rc = kalign_write_msa(m, NULL, VK_FMT == 1 ? "fasta" : VK_FMT == 2 ? "msf" : "clu");
         VK_ASSERT(rc == OK, "C15: writing a final alignment succeeds");
+#if VK_FMT == 2
+        VK_ASSERT(!vk_trunc_hdr, "C15: an MSF header line that does not fit its buffer is rendered again into a larger one, never kept truncated");
+#ifdef VK_TRUNC_DELTA
+        VK_ASSERT(vk_msf_hdr_seen == ((VK_TRUNC_DELTA) >= 0 ? 2 : 1), "C15: the header is rendered a second time exactly when the first rendering did not fit");
+        vk_msf_hdr_seen = 1;
+#endif
+#endif
         VK_ASSERT(!vk_tape_overflow, "model limit: output tape large enough");
         VK_ASSERT(vk_tape_col == 0, "C15: the file ends with a newline");
         int ln = 0;
